@@ -4,7 +4,7 @@
     codec is C07's model; equality of fingerprints across processes and sensitivity to every value kind are decided on the
     implementation by the C08 harness: identical text loaded twice, in another file-creation order and GOMAXPROCS, and a
     menu of relevant / irrelevant edits per program.) *)
-From Dawn Require Import Fingerprint.Model Fingerprint.Proofs.
+From Dawn Require Import Fingerprint.Model Fingerprint.Proofs Fingerprint.Proofs_Iso.
 
 (** Fingerprinting terminates -- with fuel bounded by the number of functions -- on EVERY graph: self-recursion, mutual
     recursion through any number of functions, closures referring to their makers, shared helpers. *)
@@ -12,32 +12,123 @@ Theorem fingerprint_terminates : forall g f, exists ts s, fingerprint g f = Done
 Proof. exact Proofs.fingerprint_terminates. Qed.
 Print Assumptions fingerprint_terminates.
 
-(** The fingerprint is a function of the graph alone (it is a Gallina function of [g] and [f]: no addresses, no
-    allocation order, no map iteration order enter), and it contains the name and code identity of every function
-    reachable from the target, however the references are arranged. *)
+(** The fingerprint contains the name and code identity of every function reachable from the target, however the
+    references are arranged. *)
 Theorem fingerprint_covers_reachable :
   forall g f ts s, fingerprint g f = Done ts s ->
     forall x, reach g f x -> exists fd, lookup x g = Some fd /\ In (f_name fd, f_code fd) (nodes_l ts).
 Proof. exact Proofs.fingerprint_covers_reachable. Qed.
 Print Assumptions fingerprint_covers_reachable.
 
-(** Two loads of identical project text produce function objects that differ only in identity (address, allocation
-    order): renaming the identities by any injective map leaves the fingerprint unchanged. *)
-Theorem fingerprint_independent_of_identities :
-  forall (f : N -> N), (forall a b, f a = f b -> a = b) ->
-  forall g x,
-    match fingerprint g x, fingerprint (ren_graph f g) (f x) with
-    | Done t1 _, Done t2 _ => t1 = t2
-    | OutOfFuel, OutOfFuel => True
-    | _, _ => False
-    end.
-Proof. exact Proofs.fingerprint_independent_of_identities. Qed.
-Print Assumptions fingerprint_independent_of_identities.
+(** Isomorphism of the parts of two function graphs reachable from their roots (Proofs_Iso.v):
+
+      agree g1 g2 R x y :=  x is outside g1 and y is outside g2,  or  x is a function of g1 and y one of g2 with
+                            f_name x = f_name y,  f_code x = f_code y  (code, constants, values, kind: everything a function
+                            pickles except the functions it mentions)  and  Forall2 R (f_mentions x) (f_mentions y)
+                            (the same number of mentioned functions, pairwise related, in pickling order)
+      iso g1 g2 r1 r2 R :=  R r1 r2  (the roots are related)
+                         /\ forall x y, R x y -> agree g1 g2 R x y
+                         /\ R is one-to-one on functions (x in g1 has one partner; y in g2 has one partner)
+
+    An isomorphism relates every function reachable from r1 to a function reachable from r2, so nothing reachable is left
+    out of the comparison: *)
+Theorem iso_relates_every_reachable_function :
+  forall g1 g2 r1 r2 R, iso g1 g2 r1 r2 R ->
+    forall x, reach g1 r1 x -> exists y, R x y /\ reach g2 r2 y.
+Proof. exact Proofs_Iso.iso_total. Qed.
+Print Assumptions iso_relates_every_reachable_function.
+
+(** DETERMINISM.  If the reachable parts of two function graphs are isomorphic, both fingerprints are computed and they
+    are EQUAL -- whatever the identities (addresses) of the function objects, the order in which the graphs list them,
+    the number of functions (hence the fuel) and whatever else the two graphs contain outside the reachable parts.  Two
+    loads of identical project text differ only in such respects.  (Renaming all identities by an injective map is the
+    special case R x y := y = f x.) *)
+Theorem fingerprint_deterministic :
+  forall g1 r1 g2 r2 R, iso g1 g2 r1 r2 R ->
+    exists ts s1 s2, fingerprint g1 r1 = Done ts s1 /\ fingerprint g2 r2 = Done ts s2.
+Proof. exact Proofs_Iso.fingerprint_deterministic_lemma. Qed.
+Print Assumptions fingerprint_deterministic.
+
+(** SENSITIVITY.  Full statement: "if two rooted function graphs have equal fingerprints, their reachable parts are
+    isomorphic" -- so that any difference in a reachable code, value or reference shows in the fingerprint.  It is FALSE
+    of the model, hence of the code it transcribes ([fingerprint_sensitive_refuted] below): a function that is still being
+    pickled is denoted by its NAME alone, so two different functions of the same name are confused.
+
+    What holds: the statement for every pair of graphs in which AT LEAST ONE has no two different reachable functions of
+    the same name,
+      names_identify g r := forall x y reachable from r in g, f_name x = f_name y -> x = y.
+    The isomorphism found relates reachable functions only. *)
+Theorem fingerprint_sensitive_partial :
+  forall g1 r1 g2 r2 ts s1 s2,
+    names_identify g1 r1 \/ names_identify g2 r2 ->
+    fingerprint g1 r1 = Done ts s1 -> fingerprint g2 r2 = Done ts s2 ->
+    exists R, iso g1 g2 r1 r2 R /\
+              (forall x y, R x y -> lookup x g1 <> None -> reach g1 r1 x /\ reach g2 r2 y).
+Proof. exact Proofs_Iso.fingerprint_sensitive_lemma. Qed.
+Print Assumptions fingerprint_sensitive_partial.
+
+(** The hypothesis cannot be dropped: there are two rooted graphs with EQUAL fingerprints between which there is not even
+    a relation containing the roots under which related nodes agree.  Witness (Proofs_Iso.collide_g1/2): target 1 calls 2,
+    2 calls 3, and 2 and 3 are different functions both named 7; in the first graph 3 calls 2 back, in the second 3 calls
+    itself -- both references are written ("dawn","Recursive",("7",)).  The same pair on the implementation: two closures
+    called h made by two factories, see DESIGN.md / the C08 report. *)
+Theorem fingerprint_sensitive_refuted :
+  exists g1 r1 g2 r2 ts s1 s2,
+    fingerprint g1 r1 = Done ts s1 /\ fingerprint g2 r2 = Done ts s2 /\
+    ~ exists R : N -> N -> Prop, R r1 r2 /\ forall x y, R x y -> agree g1 g2 R x y.
+Proof. exact Proofs_Iso.fingerprint_sensitive_refuted_lemma. Qed.
+Print Assumptions fingerprint_sensitive_refuted.
 
 (** non-vacuity: mutual recursion even <-> odd used by third (which also calls itself), target t *)
+Definition ex_g1 : graph :=
+  [(1, mkFn 101 1001 [4]); (2, mkFn 102 1002 [3]); (3, mkFn 103 1003 [2]); (4, mkFn 104 1004 [2; 4])].
 Example mutual_recursion_example :
-  let g := [(1, mkFn 101 1001 [4]); (2, mkFn 102 1002 [3]); (3, mkFn 103 1003 [2]); (4, mkFn 104 1004 [2; 4])] in
-  fingerprint g 1 =
+  fingerprint ex_g1 1 =
   Done [TFun 101 1001 [TFun 104 1004 [TFun 102 1002 [TFun 103 1003 [TRec 102]]; TRec 104]]]
        (mkSt [3; 2; 4; 1] [1; 4; 2; 3]).
 Proof. vm_compute. reflexivity. Qed.
+
+(** the same program loaded again: other identities, listed in another order, next to an unrelated function 99 that
+    mentions something outside the graph and shares a name with a reachable one *)
+Definition ex_g2 : graph :=
+  [(99, mkFn 103 5 [77; 23]); (23, mkFn 103 1003 [22]); (21, mkFn 101 1001 [24]); (24, mkFn 104 1004 [22; 24]);
+   (22, mkFn 102 1002 [23])].
+Definition ex_R : N -> N -> Prop := rel_of [(1, 21); (2, 22); (3, 23); (4, 24)].
+
+(** [fingerprint_deterministic]'s hypothesis holds of (ex_g1, 1) and (ex_g2, 21) *)
+Example deterministic_example : iso ex_g1 ex_g2 1 21 ex_R.
+Proof.
+  constructor.
+  - vm_compute. auto.
+  - intros x y H. vm_compute in H.
+    repeat (destruct H as [H|H]; [inversion H; subst; vm_compute; split; [reflexivity|split; [reflexivity|]];
+                                   repeat (apply Forall2_cons; [auto 8|]); apply Forall2_nil|]).
+    destruct H.
+  - intros x y y' H H' _. vm_compute in H, H'.
+    repeat (destruct H as [H|H]; [inversion H; subst;
+      repeat (destruct H' as [H'|H']; [inversion H'; subst; reflexivity|]); destruct H'|]).
+    destruct H.
+  - intros x x' y H H' _. vm_compute in H, H'.
+    repeat (destruct H as [H|H]; [inversion H; subst;
+      repeat (destruct H' as [H'|H']; [inversion H'; subst; reflexivity|]); destruct H'|]).
+    destruct H.
+Qed.
+
+(** [fingerprint_sensitive_partial]'s hypotheses hold of the same pair: distinct names among the functions reachable from 1
+    in ex_g1 (ex_g2 as a whole has two functions named 103), and equal fingerprints *)
+Example sensitive_example :
+  names_identify ex_g1 1 /\
+  exists ts s1 s2, fingerprint ex_g1 1 = Done ts s1 /\ fingerprint ex_g2 21 = Done ts s2.
+Proof.
+  split.
+  - apply distinct_names_identify. vm_compute.
+    repeat (constructor; [cbn [In]; intros H; repeat (destruct H as [H|H]; [discriminate H|]); exact H|]).
+    constructor.
+  - do 3 eexists. split; vm_compute; reflexivity.
+Qed.
+
+(** ... and a reachable difference shows: function 3's code changed from 1003 to 1009 (same name, same references) *)
+Example sensitive_example_edit :
+  let g' := [(1, mkFn 101 1001 [4]); (2, mkFn 102 1002 [3]); (3, mkFn 103 1009 [2]); (4, mkFn 104 1004 [2; 4])] in
+  forall ts s ts' s', fingerprint ex_g1 1 = Done ts s -> fingerprint g' 1 = Done ts' s' -> ts <> ts'.
+Proof. intros g' ts s ts' s' H H'. vm_compute in H, H'. inversion H; inversion H'; subst. discriminate. Qed.
